@@ -301,6 +301,9 @@ type c03Stmt struct {
 	sv     *c03Var // copy: source array
 	st     *c03Ty
 	hi     int // copy: v[lo:hi]
+	// return: statements written after the return in the same block (dead
+	// code: not part of the Mini term, ignored by the reference interpreter)
+	dead []*c03Stmt
 }
 
 func (s *c03Stmt) clone() *c03Stmt {
@@ -309,6 +312,7 @@ func (s *c03Stmt) clone() *c03Stmt {
 	c.c = s.c.clone()
 	c.a = c03CloneBlock(s.a)
 	c.b = c03CloneBlock(s.b)
+	c.dead = c03CloneBlock(s.dead)
 	c.es = nil
 	for _, e := range s.es {
 		c.es = append(c.es, e.clone())
@@ -405,6 +409,9 @@ func (s *c03Stmt) src(sb *strings.Builder, ind int) {
 			parts = append(parts, e.src())
 		}
 		fmt.Fprintf(sb, "%sreturn %s\n", in, strings.Join(parts, ", "))
+		for _, d := range s.dead {
+			d.src(sb, ind)
+		}
 	case c03SCall:
 		var xs, as []string
 		for _, x := range s.xs {
@@ -1013,6 +1020,17 @@ func (ck *c03Checker) block(b []*c03Stmt) bool {
 					ck.fail()
 				}
 			}
+			if len(s.dead) > 0 {
+				// dead code must still be well-formed; it declares nothing
+				for _, d := range s.dead {
+					if d.tag != c03SAssign && d.tag != c03SReturn {
+						ck.fail()
+					}
+				}
+				ck.open()
+				ck.block(s.dead)
+				ck.close()
+			}
 			dead = true
 		case c03SCall:
 			if s.f < 0 || s.f >= len(ck.p.funcs)-1 {
@@ -1224,6 +1242,9 @@ func (fw *c03FeatWalker) block(b []*c03Stmt, inLoop bool) {
 			fw.scope = fw.scope[:len(fw.scope)-1]
 			fw.closed[s.v.id] = true
 		case c03SReturn:
+			if len(s.dead) > 0 {
+				fw.feat["dead-code-after-return"] = true
+			}
 			if len(fw.scope) > 2 {
 				fw.feat["early-return"] = true
 				if inLoop {
